@@ -634,6 +634,8 @@ func runIdentCase(c identCase, sec *vh.Section) {
 			impls[i] = "badtags"
 		case len(m) == 0:
 			impls[i] = "empty"
+		case strings.Contains(err.Error(), "cannot be written as a line"):
+			impls[i] = "unwritable" // the write-time guard of proposed-fixes/F08r.diff (not in the tree as it is)
 		case c.fault(i):
 			impls[i] = "savefailed"
 		default:
@@ -678,6 +680,9 @@ func runIdentCase(c identCase, sec *vh.Section) {
 			if !had {
 				continue // refusing the first write of a new set while the index cannot be saved is legitimate
 			}
+		}
+		if impls[i] == "unwritable" && eq {
+			continue // refused by the write-time guard, exactly where the model's guard refuses (parse(line m) ≠ m)
 		}
 		if acc != (perr == nil && len(m) > 0) {
 			f := vh.SpecFailure{Section: "identity", Kind: "acceptance", Input: c, Impl: impls[i], Spec: fmt.Sprintf("accepted=%v", perr == nil && len(m) > 0), ImplEqModel: eq,
@@ -1237,6 +1242,13 @@ func replay(p string) {
 		if kvField(ans[0], "spec") != e {
 			res.SpecFail(vh.SpecFailure{Section: "tagseval", Kind: "from-expr-wrong", Input: c, Impl: e, Spec: kvField(ans[0], "spec"), What: "the built tag condition disagrees with the reference meaning of the expression"})
 		}
+	case "many":
+		var w struct {
+			Case manyCase `json:"case"`
+		}
+		json.Unmarshal(rp.Input, &w)
+		sec := res.Section("many", "replay", "replay of one recorded population around the cursor's partition limit")
+		runManyCase(w.Case, sec)
 	default:
 		res.Note("replay: section %q has no single-input replay; re-run the check with the recorded seed", rp.Section)
 	}
@@ -1263,5 +1275,6 @@ func main() {
 	guard("identity", func() { sectionIdentity(rng.Fork("identity")) })
 	guard("selection", func() { sectionSelection(rng.Fork("selection")) })
 	guard("race", func() { sectionRace(rng.Fork("race")) })
+	guard("many", func() { sectionMany(rng.Fork("many")) })
 	res.Write(args.Out)
 }
